@@ -96,6 +96,14 @@ func (p *c10) stream(i int) *c10Stream {
 					w.Ops = append(w.Ops, WOp{Op: "flush"})
 				}
 			}
+			if j%4 == 2 {
+				// two consecutive members whose payloads add up to one byte
+				// more than a block can hold (65280 + 257, highly compressible so that
+				// both members are small): an altered BSIZE
+				// that makes the reader take both as one member must not
+				// lose the byte that does not fit
+				w.Ops = append([]WOp{{Op: "write", P: Payload{Len: 65537, Kind: "zeros", Seed: uint32(t.Draw("work", 1<<30))}}, {Op: "flush"}}, w.Ops[:2]...)
+			}
 			bw, err := w.newWriter(file)
 			if err != nil {
 				panic(err)
